@@ -62,12 +62,16 @@ where
             )
             .await?; // cancel safe
 
+            // Only the first frame of a delivery carries these fields. They must be
+            // cleared even when there is no frame in the middle, otherwise the last
+            // frame still has the delivery-tag and is given a delivery-id of its own.
+            transfer.delivery_tag = None;
+            transfer.message_format = None;
+            transfer.settled = None;
+
             // Send the transfers in the middle
             while payload.len() > self.max_message_size as usize {
                 let partial = payload.split_to(self.max_message_size as usize);
-                transfer.delivery_tag = None;
-                transfer.message_format = None;
-                transfer.settled = None;
                 send_transfer(
                     writer,
                     input_handle.clone(),
